@@ -127,6 +127,13 @@ func (w *World) ForceFault(k FaultKind, den int) {
 
 func (w *World) FaultEnabled(k FaultKind) bool { return w.faultOn[k] }
 
+// StopFaults switches every probabilistic fault off (quiescence phase).
+func (w *World) StopFaults() {
+	for i := range w.faultOn {
+		w.faultOn[i] = false
+	}
+}
+
 // Fault reports whether fault k fires now. Counts only when it fires.
 func (w *World) Fault(k FaultKind) bool {
 	if !w.faultOn[k] {
@@ -201,6 +208,7 @@ type Kernel struct {
 	pairs    []*tcpEnd
 
 	realFds []int
+	synInFlight int
 
 	UDPLog  []UDPEvent
 	SentLog []Dgram
